@@ -111,3 +111,8 @@ for (cls, npar, ns) in NATIVE_GATES:
             fn.__name__ = ""
             return fn
         PROOFS.append(Proof("C02", f"{OPS}:Gate.apply", mk2(), name=f"Gate.apply-convention/{cls}/{which}"))
+
+
+native("C02", "c02_preps", "native/c02_preps.py",
+       bound="Gaussian preparation: all decomposition branches, squeezing angle over [-pi,pi] in 9 (quick) / 25 (thorough) steps, 1- and 2-mode targets in every order on a correlated 3-mode register",
+       timeout=900)
